@@ -119,7 +119,7 @@ def run(ctx: Ctx) -> None:
     cases = []
     for e in getattr(ctx, "fixed_witnesses", []):
         cases.append(e["witness"]); ctx.corpus_cases += 1
-    for d in [{"a": [{"_z": 1, "y": 2}], "_b": 1}, {"_a": {"b": 1}, "c": {"_d": 2, "e": [[{"_f": 1, "g": "x y"}]]}}, {"k": "it's"}, {"k": ""}, {"k": "a;b"}]:
+    for d in [{"k": "yes", "l": ["no", "yes", "y", "n", "t", "f"], "n": {"m": "no", "momentumPredictor": "yes"}}, {"a": [{"_z": 1, "y": 2}], "_b": 1}, {"_a": {"b": 1}, "c": {"_d": 2, "e": [[{"_f": 1, "g": "x y"}]]}}, {"k": "it's"}, {"k": ""}, {"k": "a;b"}]:
         cases.append({"kind": "dict", "d": enc(d)}); ctx.corpus_cases += 1
     for _ in range(ctx.n(15, 300)):
         d = gen.size_dict(rng)
